@@ -1,4 +1,5 @@
 import SockModel.Model.TlsLemmas
+import SockModel.Model.TlsShutdown
 import SockModel.Model.Deadline
 import SockModel.Model.GenTlsWorld
 import SockModel.Generated.Tls
@@ -628,5 +629,34 @@ theorem tie_Shutdown (W : Net.World ω) (E : Engine σ) (buf : Bytes) (fuel : Na
         exact ⟨a, r, by simp [hI, he, shutRes, SslAns.shutDone, h]⟩
   · exact ⟨w.ans, w.rx, by simp [hI, he, resU, resOfOut]⟩
   · exact ⟨w.ans, w.rx, by simp [hI, he, resU, resOfOut]⟩
+
+/-- **The drain, stated about the translated code itself.**  `Gen.Tls_Shutdown` - the member function as regenerated from
+the AST of the current tree - run in the model's world for ANY OS and ANY engine that honours `ReadContract`: if its first
+`SSL_shutdown` neither fails with an exception nor reports both alerts exchanged, and the call ends normally, then the
+engine-call log has grown by `reads` entries, all `SSL_read`s, `1 ≤ reads ≤ 10`, and fewer than 10 only if the newest
+delivered nothing.  (`tie_Shutdown` composed with `drainLoop_drains`; the model-level statement with `handshakeStepsMax`
+left symbolic is `shutdown_reads_before_close` in Props/C18.lean.) -/
+theorem gen_shutdown_reads (W : Net.World ω) (E : Engine σ) (buf : Bytes) (fuel : Nat) (hE : ReadContract E shutdownBuf)
+    (hf : 10 < fuel) (w : TWSt σ ω) (ans : SslAns) (s1 : St σ ω)
+    (h1 : shutCall W E (shutdownPrep w.s) = (.ok ans, s1)) (hd : ans.shutDone = false)
+    (hok : (Gen.Tls_Shutdown (tlsWorld W E buf) fuel w).1 = .ok ()) :
+    ∃ reads : List EngCall, (Gen.Tls_Shutdown (tlsWorld W E buf) fuel w).2.s.g.engCalls = reads ++ w.s.g.engCalls ∧
+      reads ≠ [] ∧ reads.length ≤ 10 ∧ (∀ c ∈ reads, c.isRead = true ∧ c.arg = []) ∧
+      (reads.length < 10 → ∃ c rest, reads = c :: rest ∧ c.ans.isDone = false) := by
+  obtain ⟨a, r, h⟩ := tie_Shutdown W E buf fuel hE hf w
+  rw [h] at hok ⊢
+  have hk : s1.g.engCalls = w.s.g.engCalls := by
+    have := shutCall_keeps (W := W) E (shutdownPrep w.s)
+    rw [h1] at this
+    exact this
+  have hm : (tlsShutdown CfgN W E w.s).1 = .ok () := by
+    simp only [resU] at hok
+    cases ho : (tlsShutdown CfgN W E w.s).1 with
+    | ok u => rfl
+    | exn e => rw [ho] at hok; simp [resOfOut] at hok
+    | abort m => rw [ho] at hok; simp [resOfOut] at hok
+  simp only [tlsShutdown, h1, hd, stepsMaxN] at hm ⊢
+  obtain ⟨reads, e1, e2, e3, e4, e5⟩ := drainLoop_drains (W := W) E 10 s1 hm
+  exact ⟨reads, by rw [← hk]; simpa using e1, e4 (by decide), e2, e3, e5⟩
 
 end SockModel.Props.C18Tie
